@@ -163,6 +163,7 @@ func c46ArmorRoundTrip(m *mon.M) {
 			in = hdr // nil and empty maps are both "no headers"
 		}
 		var out bytes.Buffer
+		hg := guardInputs("headers", in)
 		w, err := armor.Encode(&out, typ, in)
 		wit := map[string]any{"type": typ, "headers": hdr, "body": mon.FullHex(body)}
 		if err != nil {
@@ -170,7 +171,7 @@ func c46ArmorRoundTrip(m *mon.M) {
 			m.Violation("armor-encode-error", wit)
 			return
 		}
-		if err := writeChunked(w, body, r); err != nil {
+		if err := writeChunked("armor.Encode", w, body, r); err != nil {
 			wit["err"] = err.Error()
 			m.Violation("armor-encode-write-error", wit)
 			return
@@ -204,7 +205,12 @@ func c46ArmorRoundTrip(m *mon.M) {
 			m.Sample(map[string]any{"stream": "armor", "type": typ, "headers": hdr, "len": n, "text_head": string(text[:min(len(text), 160)])})
 		}
 
+		if in != nil {
+			hg.check("armor.Encode")
+		}
+		tg := guardInputs("armored-text", text)
 		blk, got, derr := decodeArmor(text, r)
+		tg.check("armor.Decode")
 		if !allRep {
 			// The format cannot carry this header map: the outcome is observed.
 			m.Count("armor_unrepresentable_headers", 1)
@@ -451,7 +457,9 @@ func c46ArmorTamper(m *mon.M) {
 		m.Eval()
 		m.Distinct("armor-tamper " + kind + " " + src + fmt.Sprintf(" pad=%d", (3-n%3)%3))
 		crc, hasCRC := lenientCRC(mut)
+		tg := guardInputs("armored-text", mut)
 		_, got, derr := decodeArmor(mut, r)
+		tg.check("armor.Decode")
 		wit := map[string]any{"kind": kind, "source": src, "mutation": desc, "text": string(mut), "original_body": mon.FullHex(body)}
 		if derr != nil {
 			m.Count("tamper_outcome:"+kind+":error", 1)
@@ -491,7 +499,7 @@ func c46ArmorGPG(m *mon.M, ks *keyset) {
 			var out bytes.Buffer
 			w, err := armor.Encode(&out, "PGP MESSAGE", map[string]string{"Comment": "made by armor.Encode", "Version": "x: 1"})
 			if err == nil {
-				err = writeChunked(w, body, r)
+				err = writeChunked("armor.Encode", w, body, r)
 			}
 			if err == nil {
 				err = w.Close()
@@ -614,7 +622,7 @@ func c46Clearsign(m *mon.M, ks *keyset) {
 			w, err = clearsign.Encode(&out, sg.priv, cfg)
 		}
 		if err == nil {
-			err = writeChunked(w, text, r)
+			err = writeChunked("clearsign.Encode", w, text, r)
 		}
 		if err == nil {
 			err = w.Close()
@@ -656,7 +664,9 @@ func c46Clearsign(m *mon.M, ks *keyset) {
 			m.Violation("clearsign-output-text-differs-from-canonical-input", wit)
 		}
 
+		cg := guardInputs("clearsigned-message", msg)
 		b, rest := clearsign.Decode(msg)
+		cg.check("clearsign.Decode")
 		if b == nil {
 			m.Violation("clearsign-decode-returns-nil", wit)
 			return
@@ -904,11 +914,13 @@ func c46GPGClearsign(m *mon.M, ks *keyset) {
 func TestC46(t *testing.T) {
 	m := mon.New(t, "C46")
 	defer m.Done()
+	curMon = m
 	m.Rule("armor: case = (type, header map, body 0..10 KiB with lengths around 48-octet line multiples, write chunking); armor.Encode -> armor.Decode must return the same type/headers/body for every header map a one-line 'Key: Value' syntax can carry (others: outcome observed), and the emitted text must read identically under a strict RFC 4880 §6.2 parser with a reference CRC-24. " +
 		"armor-tamper: single octet substitutions / checksum edits / padding edits / truncations of armored text; judged invariant: when Decode+read succeeds and the text has a checksum line, CRC-24(returned body) equals it. " +
 		"clearsign: case = (signer RSA/DSA/ECDSA incl. signing subkey, hash, text built from nasty line heads: '-', '- ', 'From ', armor look-alikes, trailing blanks/tabs, CR/LF mixes, no final newline, empty); Encode -> Decode must return the §7.1 canonical text (Bytes) and LF text (Plaintext), leave no rest, the signature must verify over Bytes with the right signer and fail over altered Bytes; every 100th case (text containing all classes) is also verified by gpg. gpg --clearsign output (digest, signer, extra Hash headers, NotDashEscaped) must decode and verify here. distinct = (stream, algorithms, text/length/header class)")
 	m.Assume("GnuPG 2.2.40 is a correct OpenPGP implementation (witness for armor and cleartext signatures); ref/pgpfmt (CRC-24, radix-64, strict armor parser, §7.1 text model) is validated by its own vectors incl. the RFC 4880 §6.6 example; keys are fresh per process (gpg and rsa.GenerateKey randomness is not PRNG-controlled, messages and algorithms are)")
 	c46ArmorRoundTrip(m)
+	c46ArmorSplits(m)
 	c46ArmorTamper(m)
 	ks, err := newKeyset()
 	if err != nil {
@@ -919,6 +931,8 @@ func TestC46(t *testing.T) {
 	c46ArmorGPG(m, ks)
 	c46Clearsign(m, ks)
 	c46GPGClearsign(m, ks)
+	c46ClearsignSplits(m, ks)
+	ks.verifyKeysUnchanged(m)
 	m.Count("gpg_calls_total", int(ks.g.calls.Load()))
 	m.Note("Text with a CR that is not part of a CRLF pair is outside RFC 4880 §7.1's wording (gpg strips it as trailing whitespace, clearsign.Decode keeps it): such cases are counted (clearsign_exotic_cr_cases, gpg_clearsign_exotic_cr_*) and judged only by reading-independent checks.")
 	m.Note("Header maps the one-line syntax cannot carry (empty value, value ending / key starting with white space, key containing ': ', embedded newline) are encoded without complaint by armor.Encode; outcomes are counted under armor_unrepresentable:*.")
@@ -942,4 +956,5 @@ func TestC46(t *testing.T) {
 	m.Gate("gpg_clearsign_verified_here", m.N(6, 150), "gpg --clearsign output verified by the package")
 	m.Gate("gpg_dearmor_calls", m.N(8, 300), "gpg --dearmor of armor.Encode output")
 	m.Gate("gpg_enarmor_calls", m.N(8, 300), "armor.Decode of gpg --enarmor output")
+	c46SplitGates(m)
 }
